@@ -37,7 +37,12 @@ def term_eql(sig, t):
         return vname(t[1])
     if t[0] == "wild":
         return "_"
-    return "%s(%s)" % (sig["rels"][t[1]]["name"], ", ".join(term_eql(sig, a) for a in t[2]))
+    return "%s(%s)" % (rel_src_name(sig["rels"][t[1]]), ", ".join(term_eql(sig, a) for a in t[2]))
+
+
+def rel_src_name(r):
+    """Name of a relation in eqlog source: constructors are CamelCase (`Ka`), their API name is snake (`ka`)."""
+    return r["name"][0].upper() + r["name"][1:] if r.get("ctor") else r["name"]
 
 
 def atom_eql(sig, a):
@@ -54,12 +59,43 @@ def atom_eql(sig, a):
     raise ValueError(a)
 
 
+def stmts_eql(sig, stmts, ind, out):
+    pad = "    " * ind
+    for st in stmts:
+        if st[0] in ("if", "then"):
+            out.append("%s%s %s;" % (pad, st[0], atom_eql(sig, st[1])))
+        elif st[0] == "branch":
+            for bi, blk in enumerate(st[1]):
+                out.append("%s%s {" % (pad, "branch" if bi == 0 else "} along"))
+                stmts_eql(sig, blk, ind + 1, out)
+            out.append("%s}" % pad)
+        elif st[0] == "match":
+            out.append("%smatch %s {" % (pad, term_eql(sig, st[1])))
+            for (ctor, args, blk) in st[2]:
+                out.append("%s    %s(%s) => {" % (pad, rel_src_name(sig["rels"][ctor]), ", ".join(term_eql(sig, a) for a in args)))
+                stmts_eql(sig, blk, ind + 2, out)
+                out.append("%s    }" % pad)
+            out.append("%s}" % pad)
+        else:
+            raise ValueError(st)
+
+
 def prog_eql(prog):
     sig = prog["sig"]
     out = []
+    enums = sig.get("enums", {})
     for i in range(sig["ntypes"]):
-        out.append("type %s;" % tname(i))
+        if i in enums:
+            ctors = []
+            for c in enums[i]:
+                r = sig["rels"][c]
+                ctors.append("%s(%s)" % (rel_src_name(r), ", ".join(tname(t) for t in r["cols"][:-1])))
+            out.append("enum %s { %s }" % (tname(i), ", ".join(ctors)))
+        else:
+            out.append("type %s;" % tname(i))
     for r in sig["rels"]:
+        if r.get("ctor"):
+            continue
         if r["func"]:
             args = ", ".join(tname(c) for c in r["cols"][:-1])
             out.append("func %s(%s) -> %s;" % (r["name"], args, tname(r["cols"][-1])))
@@ -67,10 +103,36 @@ def prog_eql(prog):
             out.append("pred %s(%s);" % (r["name"], ", ".join(tname(c) for c in r["cols"])))
     for ru in prog["rules"]:
         out.append("rule {")
-        for (k, a) in ru:
-            out.append("    %s %s;" % (k, atom_eql(sig, a)))
+        stmts_eql(sig, ru, 1, out)
         out.append("}")
     return "\n".join(out) + "\n"
+
+
+def rule_paths(stmts):
+    """A rule with branch/match statements denotes the set of its control-flow paths: a block sees the
+    statements before the branch, statements after a branch do not see the blocks; a match case `C(xs) => b`
+    is the block `if t = C(xs); b`. Returns flat if/then statement lists (those containing a then)."""
+    out = []
+    prefix = []
+    for st in stmts:
+        if st[0] in ("if", "then"):
+            prefix.append(st)
+        elif st[0] == "branch":
+            for blk in st[1]:
+                for p in rule_paths(blk):
+                    out.append(prefix + p)
+        elif st[0] == "match":
+            for (ctor, args, blk) in st[2]:
+                head = ("if", ("eq", st[1], ("app", ctor, list(args))))
+                for p in rule_paths([head] + list(blk)):
+                    out.append(prefix + p)
+    if any(k == "then" for (k, _) in prefix):
+        out.append(list(prefix))
+    return out
+
+
+def flat_rules(prog):
+    return [p for ru in prog["rules"] for p in rule_paths(ru)]
 
 
 def term_coq(t):
@@ -101,7 +163,7 @@ def prog_coq(prog):
     sig = prog["sig"]
     rels = coq_list(sig["rels"], lambda r: "{| rd_cols := %s; rd_func := %s |}" % (
         coq_list(r["cols"]), "true" if r["func"] else "false"))
-    rules = coq_list(prog["rules"], lambda ru: coq_list(ru, lambda s: "%s (%s)" % ("If" if s[0] == "if" else "Then", atom_coq(s[1]))))
+    rules = coq_list(flat_rules(prog), lambda ru: coq_list(ru, lambda s: "%s (%s)" % ("If" if s[0] == "if" else "Then", atom_coq(s[1]))))
     return "{| pg_sig := {| sg_ntypes := %d; sg_rels := %s |}; pg_rules := %s |}" % (sig["ntypes"], rels, rules)
 
 
@@ -150,8 +212,10 @@ class ProgGen:
     finite. With allow_loops=True a small fraction of programs breaks that rule (they may diverge and are
     then skipped by the harness)."""
 
-    def __init__(self, rng, surjective_only=False, max_rules=5):
+    def __init__(self, rng, surjective_only=False, max_rules=5, enums=False, control=False):
         self.rng = rng
+        self.enums = enums        # generate enum declarations
+        self.control = control    # generate branch / match statements
         self.surjective_only = surjective_only
         self.max_rules = max_rules
 
@@ -170,7 +234,21 @@ class ProgGen:
             lo = max(args) if args else 0
             res = lo + r.below(nt - lo)
             rels.append({"name": "f" + suffix(i), "cols": args + [res], "func": True})
-        return {"ntypes": nt, "rels": rels}
+        enums = {}
+        if self.enums and r.chance(1, 2):
+            # the last type becomes an enum: its elements exist only as constructor values
+            et = nt - 1
+            rels = [x for x in rels if not (x["func"] and x["cols"][-1] == et)]
+            ctors = []
+            for i in range(1 + r.below(3)):
+                ar = r.choice([0, 1, 1, 2])
+                args = [r.below(nt) if (i > 0 and r.chance(1, 4)) else r.below(max(1, nt - 1)) for _ in range(ar)]
+                if nt == 1:
+                    args = [0 for _ in args] if i > 0 else []
+                rels.append({"name": "k" + suffix(i), "cols": args + [et], "func": True, "ctor": True})
+                ctors.append(len(rels) - 1)
+            enums[et] = ctors
+        return {"ntypes": nt, "rels": rels, "enums": enums}
 
     def gen_rule(self, sig):
         r = self.rng
@@ -283,7 +361,52 @@ class ProgGen:
                     rule.append(("then", ("eq", ("app", f, args), y)))
         if not any(s[0] == "then" for s in rule):
             return None
-        return fix_single_vars(rule)
+        rule = fix_single_vars(rule)
+        if rule is None or not self.control:
+            return rule
+        return self.add_control(sig, rule, vtype, nvars)
+
+    def add_control(self, sig, rule, vtype, nvars):
+        """Turns a flat rule into one with a `branch` and/or a `match` statement (the flat rule stays valid on
+        every path). vtype: types of the rule's variables."""
+        r = self.rng
+        rels = sig["rels"]
+        ifs = [st for st in rule if st[0] == "if"]
+        thens = [st for st in rule if st[0] == "then"]
+        bound = set()
+        for (_, a) in ifs:
+            bound.update(atom_vars(a))
+        out = list(ifs)
+        enums = sig.get("enums", {})
+        cand = [v for v in sorted(bound) if vtype.get(v) in enums]
+        if cand and r.chance(2, 3):
+            v = r.choice(cand)
+            cases = []
+            for c in enums[vtype[v]]:
+                cols = rels[c]["cols"][:-1]
+                args, body = [], []
+                for ty in cols:
+                    ps = [i for i, x in enumerate(rels) if not x["func"] and x["cols"] == [ty]]
+                    if ps and r.chance(2, 3):
+                        nv = nvars[0]
+                        nvars[0] += 1
+                        vtype[nv] = ty
+                        args.append(("var", nv))
+                        body.append(("then", ("pred", r.choice(ps), [("var", nv)])))
+                    else:
+                        args.append(("wild", 5000 + nvars[0] + len(args)))
+                cases.append((c, args, body))
+            out.append(("match", ("var", v), cases))
+        if len(thens) >= 2 and r.chance(2, 3):
+            k = 1 + r.below(len(thens) - 1)
+            # `x := t!` binds x for later statements: keep such statements and their users on the main path
+            if not any(t[1][0] == "let" for t in thens):
+                out.append(("branch", [thens[:k], []][:1] + [[thens[k]]] if r.chance(1, 2) else [thens[:k], thens[k:]]))
+                if out[-1][1][1] == [thens[k]]:
+                    out.extend(thens[k + 1:])
+                return out
+        out.extend(thens)
+        return out
 
     def gen(self):
         sig = self.gen_sig()
@@ -400,29 +523,58 @@ def gen_facts(rng, sig, size=None, rules=None):
     nt = sig["ntypes"]
     per = size if size is not None else 2 + rng.below(3)
     elems = []   # type of element i
-    for t in range(nt):
-        for _ in range(1 + rng.below(per)):
-            elems.append(t)
     facts = []   # ("row", r, [elem idx]) | ("eq", ty, a, b) | ("def", f, [elem idx], new elem idx)
     by_type = lambda t: [i for i, ty in enumerate(elems) if ty == t]
+    enums = sig.get("enums", {})
+
+    def new_elem(t, depth=0):
+        """A new element of type t; elements of enum types can only be created as constructor values."""
+        if t not in enums:
+            elems.append(t)
+            return len(elems) - 1
+        ctors = enums[t]
+        flat = [c for c in ctors if t not in sig["rels"][c]["cols"][:-1]]
+        c = rng.choice(flat if (flat and (depth > 1 or rng.chance(2, 3))) else ctors)
+        args = []
+        for ty in sig["rels"][c]["cols"][:-1]:
+            if by_type(ty) and (rng.chance(2, 3) or depth > 2):
+                args.append(rng.choice(by_type(ty)))
+            elif depth > 3:
+                return None
+            else:
+                a = new_elem(ty, depth + 1)
+                if a is None:
+                    return None
+                args.append(a)
+        for f in facts:
+            if f[0] == "def" and f[1] == c and f[2] == args:
+                return f[3]
+        elems.append(t)
+        facts.append(("def", c, args, len(elems) - 1))
+        return len(elems) - 1
+    for t in range(nt):
+        for _ in range(1 + rng.below(per)):
+            new_elem(t)
     for ri, rel in enumerate(sig["rels"]):
         k = rng.below(5) if rel["cols"] else rng.below(2)
         for _ in range(k):
             if rel["func"] and rng.chance(1, 3):
                 args = rel["cols"][:-1]
-                if all(by_type(c) for c in args):
+                if all(by_type(c) for c in args) and not any(f[0] == "def" and f[1] == ri for f in facts if rel.get("ctor")):
                     a = [rng.choice(by_type(c)) for c in args]
-                    elems.append(rel["cols"][-1])
-                    facts.append(("def", ri, a, len(elems) - 1))
+                    if not any(f[0] == "def" and f[1] == ri and f[2] == a for f in facts):
+                        elems.append(rel["cols"][-1])
+                        facts.append(("def", ri, a, len(elems) - 1))
                 continue
             if all(by_type(c) for c in rel["cols"]):
                 facts.append(("row", ri, [rng.choice(by_type(c)) for c in rel["cols"]]))
     # facts that make rule premises match: instantiate the premise of some rules with elements
-    for ru in (rules or []):
+    flat = [p for ru in (rules or []) for p in rule_paths(ru)]
+    for ru in flat:
         if not rng.chance(2, 3):
             continue
         for _ in range(1 + rng.below(2)):
-            instantiate_premise(rng, sig, ru, elems, facts, by_type)
+            instantiate_premise(rng, sig, ru, elems, facts, by_type, new_elem)
     if rng.chance(1, 3):
         for _ in range(1 + rng.below(2)):
             t = rng.below(nt)
@@ -470,7 +622,7 @@ def var_types(sig, rule):
     return vt
 
 
-def instantiate_premise(rng, sig, rule, elems, facts, by_type):
+def instantiate_premise(rng, sig, rule, elems, facts, by_type, new_elem):
     rels = sig["rels"]
     vt = var_types(sig, rule)
     asg = {}
@@ -479,8 +631,10 @@ def instantiate_premise(rng, sig, rule, elems, facts, by_type):
         cands = by_type(ty)
         if cands and rng.chance(3, 4):
             return rng.choice(cands)
-        elems.append(ty)
-        return len(elems) - 1
+        e = new_elem(ty)
+        if e is None:
+            return rng.choice(cands) if cands else new_elem(ty, 3) or 0
+        return e
 
     def value(t, ty):
         """element denoting term t (creating facts that define nested applications)"""
